@@ -385,7 +385,12 @@ func reachFromEdge(b *ssa.BasicBlock, i int, cut edgePred) map[*ssa.BasicBlock]b
 // onlyVia reports whether instruction target is reachable from fn's entry only through edges
 // for which p holds for one of the facts (i.e. unreachable once they are cut).
 func onlyVia(fn *ssa.Function, target *ssa.BasicBlock, p func(Fact) bool) bool {
-	return !reachEntry(fn, factCut(p))[target]
+	if !reachEntry(fn, factCut(p))[target] {
+		return true
+	}
+	// both traversals over-approximate the feasible paths; the second one understands conditions
+	// that were first stored in a boolean local (materialised && / ||)
+	return !reachEntryP(fn, p)[target]
 }
 
 // returnsOf lists the Return instructions of fn.
@@ -1031,12 +1036,30 @@ func lenFact(f Fact) (ssa.Value, string) {
 // edge of t carries B's facts. Operands are considered only for predecessor edges that were
 // actually traversed (least fix-point).
 func reachFromEdgeP(b *ssa.BasicBlock, i int, p func(Fact) bool) map[*ssa.BasicBlock]bool {
+	return phiAwareReach(b, i, nil, p)
+}
+
+// reachEntryP: the same traversal from the function entry.
+func reachEntryP(fn *ssa.Function, p func(Fact) bool) map[*ssa.BasicBlock]bool {
+	if len(fn.Blocks) == 0 {
+		return nil
+	}
+	return phiAwareReach(nil, 0, fn.Blocks[0], p)
+}
+
+func phiAwareReach(b *ssa.BasicBlock, i int, entry *ssa.BasicBlock, p func(Fact) bool) map[*ssa.BasicBlock]bool {
 	type edge struct {
 		from *ssa.BasicBlock
 		idx  int
 	}
-	trav := map[edge]bool{{b, i}: true}
+	trav := map[edge]bool{}
 	seen := map[*ssa.BasicBlock]bool{}
+	if b != nil {
+		trav[edge{b, i}] = true
+	}
+	if entry != nil {
+		seen[entry] = true
+	}
 	cutEdge := func(blk *ssa.BasicBlock, si int) bool {
 		for _, f := range edgeFacts(blk, si) {
 			if p(f) {
